@@ -573,7 +573,8 @@ def eval_text(text, binds, ctx):
     return outcome(thunk)
 
 
-def sweep_context(conv, root, rng, per_fd, sink, replay=None, model_reqs=None, where=None, call_budget=3, focus=()):
+def sweep_context(conv, root, rng, per_fd, sink, replay=None, model_reqs=None, where=None, call_budget=3, focus=(),
+                  text_tuples=40):
     """(A) over every definition of the context `root`, whose naming convention is `conv`"""
     global _CTX_VALUE
     defs = greg.all_definitions(root)
@@ -614,7 +615,7 @@ def sweep_context(conv, root, rng, per_fd, sink, replay=None, model_reqs=None, w
             bump('focus-definitions')
             for _ in range(6):
                 tuples.add(tuple(rng.randrange(len(cands[p.name])) for p in vis + kwonly))
-        for ch in sorted(tuples, key=repr):
+        for ti, ch in enumerate(sorted(tuples, key=repr)):
             if replay and list(ch) != replay['choice']:
                 continue
             crng = common.make_rng(rbase, 'case/%d/%r' % (di, ch))
@@ -644,7 +645,7 @@ def sweep_context(conv, root, rng, per_fd, sink, replay=None, model_reqs=None, w
             # the same spellings WRITTEN AS TEXT and parsed (plain name resolution): every one that can be written must give
             # what the positional text spelling gives
             text_outs = []
-            if IDENT.match(name) and outs and outs[0][1] != 'err:Timeout':
+            if IDENT.match(name) and outs and outs[0][1] != 'err:Timeout' and (ti < text_tuples or name in focus or replay):
                 lab_of = {id(c[1]): c[0] for c in choice.values() if c is not None}
                 recv_mk = choice[vis[0].name][1] if vis and choice[vis[0].name] is not None else None
                 for tag, recv_i, argf, kwf in sp:
@@ -1340,7 +1341,10 @@ def run(env, res):
 
 
 
-LEVEL_TEXT = ('Lean 4: call_equiv, ext_both_ways, kind_exclusive, spelling_equiv (= spelling_equiv_full, the whole argument vector: '
+LEVEL_TEXT = ('Lean 4 (round 5: C12Spell - kwarg_name_token, spellable_sound / spellable_complete over the lexer model for every '
+              'configuration and word; keyword_names_spellable by decide +kernel: every keyword-passable parameter name of every '
+              'registered definition under each convention is a word the lexer leaves a KEYWORD_STRING under the default and the '
+              'legacy operator table); call_equiv, ext_both_ways, kind_exclusive, spelling_equiv (= spelling_equiv_full, the whole argument vector: '
               'any two spellings that give every named parameter the same value - in its slot, by keyword in any order, or '
               'defaulted: left out / empty slot / written out - bind the same vector in get_delegate or fail alike; via '
               'getDelegate_eq_of_received), spelling_kw_move / spelling_default_move (the one-parameter moves), '
